@@ -1,5 +1,70 @@
-import RSVerif.Basic
-/- C13: line-protocol driver (stub) -/
+import RSVerif.Model.KeyFilter
+import RSVerif.Spec.CommandKeys
+/- line protocol for C13: what the SPECIFICATION (Spec.CommandKeys.filterSpec) predicts for each case of
+   go/harness/c13.go; where the spec makes no demand (argument count not valid for the command, or a `row`
+   case that calls getMatchKeys on an explicit row) the line is the model's outcome. -/
 namespace RSVerif.Drive.C13
-def handle (_line : String) : String := "unimplemented"
+open RSVerif RSVerif.Spec.CommandKeys
+
+def parseList (s : String) : Option (List Bytes) :=
+  if s == "-" then some []
+  else (s.splitOn ",").mapM fun e => if e == "_" then some [] else ofHex e
+
+def renderArgs (head : String) (args : List Bytes) : String :=
+  args.foldl (fun acc a => acc ++ " " ++ hexOrDash a) head
+
+def renderVerdict : Verdict → String
+  | .drop => "drop"
+  | .forward args => renderArgs "fwd" args
+
+def renderFail : KeyFilter.Fail → String
+  | .panic => "panic"
+  | .hang => "hang"
+
+def renderModel : KeyFilter.M (List Bytes × Bool) → String
+  | .error e => renderFail e
+  | .ok (_, true) => "drop"
+  | .ok (args, false) => renderArgs "fwd" args
+
+def toInt? (s : String) : Option Int := s.toInt?
+
+def handle (line : String) : String :=
+  match line.splitOn " " with
+  | op :: wl :: bl :: rest =>
+    match parseList wl, parseList bl with
+    | some wl, some bl =>
+      let scfg : FilterCfg := ⟨wl, bl⟩
+      let mcfg : KeyFilter.Config := ⟨wl, bl⟩
+      if op == "d" || op == "w" || op == "s" then
+        match rest with
+        | name :: args =>
+          match ofHex name, args.mapM ofHex with
+          | some name, some args =>
+            if op != "d" && (KeyFilter.parseArgs name args).isNone then "parseerr"
+            else
+              match filterSpec scfg name args with
+              | some v => renderVerdict v
+              | none =>
+                -- the argument count is not valid for the command: the property makes no demand; the model's outcome
+                -- is printed for information and not compared (vlib/props_c13.py `equal`)
+                if op == "d" then "nodemand:" ++ renderModel (KeyFilter.handle mcfg name args)
+                else match KeyFilter.handleWire mcfg name args with
+                  | some r => "nodemand:" ++ renderModel r
+                  | none => "parseerr"
+          | _, _ => "badcase"
+        | _ => "badcase"
+      else if op == "explicit-row:getMatchKeys(first,last,step)-model-tie" then
+        match rest with
+        | f :: l :: s :: args =>
+          match toInt? f, toInt? l, toInt? s, args.mapM ofHex with
+          | some f, some l, some s, some args =>
+            match KeyFilter.getMatchKeys (fun k => !KeyFilter.filterKey mcfg k) ⟨[], f, l, s⟩ args with
+            | .error e => renderFail e
+            | .ok (na, p) => renderArgs (if p then "ok 1" else "ok 0") na
+          | _, _, _, _ => "badcase"
+        | _ => "badcase"
+      else "badcase"
+    | _, _ => "badcase"
+  | _ => "badcase"
+
 end RSVerif.Drive.C13
